@@ -9,6 +9,12 @@ from pmverif.core import Program
 from pmverif.norm import Resolver, assigned_names, shape_of
 prog = Program()
 out = {}
+def _uses(key):
+    from pmverif.gates import def_uses, view
+    try:
+        return def_uses(view(prog, key))
+    except Exception as e:
+        return None
 def _ctx(key):
     from pmverif.gates import stmt_contexts, view
     try:
@@ -26,6 +32,7 @@ for fn in prog.all_funcs():
         "locals": sorted((assigned_names([fn.node]) | set(fn.params())) - {fn.name}),
         "defs": {k: " ".join(ast.unparse(e).split()) for k, e in sorted(Resolver(fn.node).defs.items())},
         "ctx": _ctx(fn.key),
+        "uses": _uses(fn.key),
         "returns": sorted(" ".join(ast.unparse(r.value).split()) if r.value is not None else "None" for r in walk_own(fn.node) if isinstance(r, ast.Return)),
     }
 # module-level constants (UPPER_CASE names and compiled patterns) of every module
